@@ -321,6 +321,16 @@ pub fn run_check(spec: &PropSpec, tier: &str, base_seed: u64, threads: usize) ->
             },
         });
     }
+    if let Some(n) = fam_runs.get("C04X") {
+        let per = crate::families::C04X_PER_SET;
+        ev["coverage"]["completion_order_enumeration"] = json!({
+            "family": "C04X",
+            "points_executed": n,
+            "points_per_request_set": per,
+            "request_sets_fully_enumerated": n / per,
+            "per_request_set": "4 roles x sum over n=2..4 of n! completion orders x 2^n immediate/deferred masks",
+        });
+    }
     if let Some(n) = fam_runs.get("C16X") {
         let total = crate::families::c16x_total();
         let le2 = crate::families::c16x_total_le2();
